@@ -301,6 +301,8 @@ uper_sot_suck(const asn_codec_ctx_t *ctx, const asn_TYPE_descriptor_t *td,
 	(void)sptr;
 
 	while(per_get_few_bits(pd, 24) >= 0);
+	/* Less than 24 bits are left: these belong to the open type as well */
+	(void)per_get_few_bits(pd, pd->nbits - pd->nboff);
 
 	rv.code = RC_OK;
 	rv.consumed = pd->moved;
